@@ -506,19 +506,56 @@ func instrumentFile(label string, p *packages.Package, f *ast.File, fc *fileCtx)
 					rewriteMapRange(label, p, fc, x, labeled[x], funcName)
 				}
 				if _, ok := t.Underlying().(*types.Chan); ok {
-					pos := p.Fset.Position(x.Pos())
-					inv.Unsim = append(inv.Unsim, Audit{"range over channel", label + "/" + fc.rel, pos.Line})
+					rewriteChanRange(label, fc, x, funcName)
 				}
 			}
 		case *ast.GoStmt:
 			rewriteGo(label, fc, x, funcName, listed[x])
-		case *ast.SelectStmt, *ast.SendStmt:
+		case *ast.SelectStmt:
+			// not simulated: the tree then runs on real goroutines (RealGo); the communication
+			// clauses keep their syntax (the channel shims would not fit there)
 			pos := p.Fset.Position(n.Pos())
-			inv.Unsim = append(inv.Unsim, Audit{fmt.Sprintf("%T", n), label + "/" + fc.rel, pos.Line})
+			inv.Unsim = append(inv.Unsim, Audit{"select", label + "/" + fc.rel, pos.Line})
+			for _, cl := range x.Body.List {
+				if cc, ok := cl.(*ast.CommClause); ok && cc.Comm != nil {
+					ast.Inspect(cc.Comm, func(m ast.Node) bool {
+						if _, isLit := m.(*ast.FuncLit); isLit {
+							return false
+						}
+						if m != nil {
+							inSelectComm[m] = true
+						}
+						return true
+					})
+				}
+			}
+		case *ast.SendStmt:
+			// ch <- v  ->  __simrt.ChanSend(site, ch, v)
+			if !inSelectComm[n] {
+				sid := newSite("chan", fc, label, x.Pos(), funcName, "send")
+				fc.insert(x.Pos(), fmt.Sprintf("__simrt.ChanSend(%d, ", sid), 8)
+				fc.replace(x.Chan.End(), x.Value.Pos(), ", ")
+				fc.insert(x.End(), ")", 9)
+			}
 		case *ast.UnaryExpr:
-			if x.Op == token.ARROW {
-				pos := p.Fset.Position(n.Pos())
-				inv.Unsim = append(inv.Unsim, Audit{"channel receive", label + "/" + fc.rel, pos.Line})
+			if x.Op == token.ARROW && !inSelectComm[n] {
+				// <-ch  ->  __simrt.ChanRecv(site, ch); the two-value form gets ChanRecv2
+				name := "ChanRecv"
+				if len(stack) >= 2 {
+					switch par := stack[len(stack)-2].(type) {
+					case *ast.AssignStmt:
+						if len(par.Lhs) == 2 && len(par.Rhs) == 1 && par.Rhs[0] == ast.Expr(x) {
+							name = "ChanRecv2"
+						}
+					case *ast.ValueSpec:
+						if len(par.Names) == 2 && len(par.Values) == 1 && par.Values[0] == ast.Expr(x) {
+							name = "ChanRecv2"
+						}
+					}
+				}
+				sid := newSite("chan", fc, label, x.Pos(), funcName, "receive")
+				fc.replace(x.OpPos, x.X.Pos(), fmt.Sprintf("__simrt.%s(%d, ", name, sid))
+				fc.insert(x.End(), ")", 9)
 			}
 		case *ast.SelectorExpr:
 			// a method VALUE of a sync primitive (unlock := mu.Unlock; defer unlock()): bound to a
@@ -745,6 +782,26 @@ func rewriteMapRange(label string, p *packages.Package, fc *fileCtx, x *ast.Rang
 }
 
 var goInfo *types.Info
+
+// inSelectComm: nodes inside the communication clause of a select statement (left as they are).
+var inSelectComm = map[ast.Node]bool{}
+
+// rewriteChanRange:  for v := range ch {   ->   for { v, __ok := __simrt.ChanRecv2(site, ch); if !__ok { break };
+func rewriteChanRange(label string, fc *fileCtx, x *ast.RangeStmt, fn string) {
+	id := newSite("chan", fc, label, x.Pos(), fn, "range")
+	var b strings.Builder
+	b.WriteString("for { ")
+	switch {
+	case x.Key == nil:
+		fmt.Fprintf(&b, "_, __ok%d := ", id)
+	case x.Tok == token.DEFINE:
+		fmt.Fprintf(&b, "%s, __ok%d := ", fc.text(x.Key), id)
+	default:
+		fmt.Fprintf(&b, "var __ok%d bool; %s, __ok%d = ", id, fc.text(x.Key), id)
+	}
+	fmt.Fprintf(&b, "__simrt.ChanRecv2(%d, %s); if !__ok%d { break }; ", id, fc.text(x.X), id)
+	fc.replace(x.For, x.Body.Lbrace+1, b.String())
+}
 
 // recvPointerText renders the expression that points at the sync primitive a selection
 // resolves to: `&(x)` for a direct receiver, `&(x).Mutex` through embedded fields.
@@ -1000,6 +1057,37 @@ func rewriteGo(label string, fc *fileCtx, g *ast.GoStmt, fn string, isListed boo
 	fc.replace(closeFrom, call.Rparen+1, "; "+tail)
 }
 
+func signatureHasChan(sig *types.Signature) bool {
+	has := false
+	var walk func(t types.Type, depth int)
+	walk = func(t types.Type, depth int) {
+		if has || depth > 4 || t == nil {
+			return
+		}
+		switch u := t.Underlying().(type) {
+		case *types.Chan:
+			has = true
+		case *types.Pointer:
+			walk(u.Elem(), depth+1)
+		case *types.Slice:
+			walk(u.Elem(), depth+1)
+		case *types.Array:
+			walk(u.Elem(), depth+1)
+		case *types.Struct:
+			for i := 0; i < u.NumFields(); i++ {
+				walk(u.Field(i).Type(), depth+1)
+			}
+		}
+	}
+	for i := 0; i < sig.Params().Len(); i++ {
+		walk(sig.Params().At(i).Type(), 0)
+	}
+	for i := 0; i < sig.Results().Len(); i++ {
+		walk(sig.Results().At(i).Type(), 0)
+	}
+	return has
+}
+
 // isSyncMarkCall reports whether a call is one of the synchronisation operations that are
 // marked rather than shimmed (sync/atomic functions and methods, sync.Pool, sync.Map).
 func isSyncMarkCall(info *types.Info, c *ast.CallExpr) bool {
@@ -1062,6 +1150,34 @@ func hostHasSyncMark(info *types.Info, host ast.Stmt, cache map[ast.Stmt]bool) b
 // synchronisation / nondeterminism sources.
 func handleCall(label string, p *packages.Package, fc *fileCtx, c *ast.CallExpr, fn string, hostStmt func() ast.Stmt, syncDone map[ast.Stmt]bool) {
 	info := p.TypesInfo
+	if id, ok := c.Fun.(*ast.Ident); ok && len(c.Args) == 1 {
+		if b, ok := info.Uses[id].(*types.Builtin); ok && b.Name() == "close" {
+			// close(ch)  ->  __simrt.ChanClose(site, ch)
+			sid := newSite("chan", fc, label, c.Pos(), fn, "close")
+			fc.replace(c.Pos(), c.Lparen+1, fmt.Sprintf("__simrt.ChanClose(%d, ", sid))
+			return
+		}
+	}
+	// a channel that crosses the library boundary (handed to, or obtained from, code outside the
+	// library: time.After, context.Done, signal.Notify, a dependency's API) has a partner the
+	// simulator does not own
+	if sig, ok := info.TypeOf(c.Fun).(*types.Signature); ok {
+		var callee *types.Func
+		switch f := c.Fun.(type) {
+		case *ast.Ident:
+			callee, _ = info.Uses[f].(*types.Func)
+		case *ast.SelectorExpr:
+			if s := info.Selections[f]; s != nil {
+				callee, _ = s.Obj().(*types.Func)
+			} else {
+				callee, _ = info.Uses[f.Sel].(*types.Func)
+			}
+		}
+		if callee != nil && callee.Pkg() != nil && !instrPkg[callee.Pkg().Path()] && callee.Pkg().Path() != "verif.local/simrt" && signatureHasChan(sig) {
+			pos := p.Fset.Position(c.Pos())
+			inv.Unsim = append(inv.Unsim, Audit{"channel crosses the library boundary: " + callee.FullName(), label + "/" + fc.rel, pos.Line})
+		}
+	}
 	sel, ok := c.Fun.(*ast.SelectorExpr)
 	if !ok {
 		return
